@@ -162,6 +162,9 @@ def build_class(mspec, events, clock=None, hw=None):
         if p['has_write']:
             def wr(self, value, _n=n, _ret=p['write_returns']):
                 events.append(('write', self.name, _n, value))
+                exc = hw.pop(('__fail__', self.name, _n, 'write'), None)
+                if exc is not None:
+                    raise exc          # injected one-shot driver fault
                 hw[(self.name, _n)] = value
                 return None if _ret == 'none' else value
             wr.__name__ = 'write_' + n
